@@ -52,6 +52,7 @@ REAL_STUB = {
 ASSUMPTIONS = [
     "tie runs (a stage's model start/completion time equals the deadline or an interrupt instant; an interrupt inside the last synchronous stretch; a leftover call due exactly at the end) are checked against the global invariants only: Twisted's runUntilCurrent runs every call due in the same iteration",
     "SIGINT is delivered with default_int_handler pre-installed, i.e. it is a stop request",
+    "two clauses hold in tie runs too: a SIGINT delivered inside the last synchronous stretch, and an outside interrupt exactly one reactor turn before a two-turn completion, yield an error and ask the result to stop",
     "no KeyboardInterrupt/SystemExit raised by stages here (C01 covers that on the synchronous runner)",
 ]
 
